@@ -171,6 +171,17 @@ def run_one(member, sizes, inputs, f_eval, f_asm, f_cmp, props, cap):
             if proj(c) not in supp_p:
                 fails.append(dict(prop="C03", what=f"phantom coordinate {c} stored (levels {dims_of_levels}) without structural support"))
                 break
+        # the stand-alone assemble kernel is a kernel with a compressed output level too: the structure it builds
+        # (read back after one compute, which fills the values) must stay within the support as well
+        st3, tids3 = K.fresh_state(member, sizes, inputs)
+        r1 = K.run_function(f_asm, st3)
+        if r1[0] == "return" and r1[1] == S.VI(0) and K.run_function(f_cmp, st3)[0] == "return":
+            v3 = K.read_output(st3, tids3[tname], ofmt, odims)
+            if v3.ok:
+                for c in v3.dok:
+                    if proj(c) not in supp_p:
+                        fails.append(dict(prop="C03", what=f"assemble kernel: phantom coordinate {c} stored (levels {dims_of_levels}) without structural support"))
+                        break
     if "C05" in props and "C04" not in props:
         # the assemble and compute kernels are generated kernels too: run assemble, then compute twice on its output
         st2, tids2 = K.fresh_state(member, sizes, inputs)
